@@ -6,6 +6,13 @@ import lib, halfspec
 DRV = os.path.join(lib.LEAN, ".lake", "build", "bin", "drv_half")
 
 
+def cpu_has_f16c():
+    try:
+        return "f16c" in open("/proc/cpuinfo").read().split("flags", 1)[-1].split("\n", 1)[0].split()
+    except OSError:
+        return False
+
+
 def build_driver():
     rc, out = lib.lake_build(["drv_half"])
     return rc == 0, out
@@ -24,12 +31,12 @@ def model_h2f_all(canon=False):
     return [halfspec.canon32(x) for x in r] if canon else r
 
 
-def first_f2h_diff(binary, api, canon, block):
+def first_f2h_diff(binary, api, canon, block, env=None):
     """Within a mismatching block find the first float whose conversion differs
     from the model; returns (float_bits, impl, model) or None."""
     lo, hi = block << 16, (block + 1) << 16
     c = "1" if canon else "0"
-    rc, a = lib.sh([binary, "f2h_range", str(lo), str(hi), api, c], timeout=600)
+    rc, a = lib.sh([binary, "f2h_range", str(lo), str(hi), api, c], timeout=600, env=env)
     rc, b = lib.sh([DRV, "f2h_range", str(lo), str(hi), c], timeout=600)
     a = [int(x, 16) for x in a.split()]
     b = [int(x, 16) for x in b.split()]
@@ -37,6 +44,301 @@ def first_f2h_diff(binary, api, canon, block):
         if x != y:
             return lo + i, x, y
     return None
+
+
+ROUND_MODES = {"tz": "FE_TOWARDZERO", "up": "FE_UPWARD", "dn": "FE_DOWNWARD"}
+
+
+def boundary_blocks():
+    """2^16-blocks (upper 16 bits of the float pattern) that contain every threshold the
+    conversion code or the format has: zero / smallest float subnormal / smallest normal float,
+    the flush threshold 0x33000001, every binade edge of the subnormal-result range
+    (0x33000000 .. 0x38800000), the normal threshold 0x38800000, every binade edge of the
+    normal-result range up to 0x47800000, the overflow threshold 0x477ff000, the largest
+    finite float, infinity / first NaNs, the quiet-NaN edge, the last pattern; both signs."""
+    mags = {0x0000, 0x0001, 0x007f, 0x0080, 0x0081, 0x32ff, 0x7f7f, 0x7f80, 0x7f81, 0x7fbf, 0x7fc0, 0x7fff}
+    for e in range(0x3300, 0x4781, 0x80):
+        mags.update((e - 1, e, e + 0x40 - 1, e + 0x40))
+    return sorted(mags | {m | 0x8000 for m in mags})
+
+
+def sample_blocks(seed, stride):
+    """all boundary blocks + every stride-th block starting at a seed-dependent offset"""
+    return sorted(set(boundary_blocks()) | set(range(seed % stride, 65536, stride)))
+
+
+def compare_blocks(chk, name, binary, prop_key_prefix, blocks, model_blocks, apis=("c", "cxx"), canon=False,
+                   env=None, what=""):
+    """float->half on a list of 2^16-blocks (harness `f2h_list`) against the model's hashes
+    (`model_blocks`: the full 65,536-entry list in the same canon form).  Returns #mismatches."""
+    c = "1" if canon else "0"
+    want = [model_blocks[b] for b in blocks] if len(model_blocks) == 65536 else []
+    nbad = 0
+    for api in apis:
+        rc, out = lib.sh([binary, "f2h_list", api, c] + [str(b) for b in blocks], timeout=1800, env=env)
+        impl = out.split()
+        ok = rc == 0 and len(impl) == len(blocks) and impl == want
+        chk.oblige("corr:%s:f2h:%s:%d-blocks" % (name, api, len(blocks)), "correspondence", ok)
+        chk.count(len(blocks) << 16, (len(blocks) << 16) - 2)
+        if ok:
+            continue
+        bad = [blocks[i] for i in range(len(blocks)) if impl[i] != want[i]] if len(impl) == len(want) else []
+        nbad += len(bad) or 1
+        rep = {"config": name, "api": api, "nan_canonicalised": bool(canon), "mismatching_blocks": len(bad),
+               "blocks_compared": len(blocks), "first_blocks": bad[:8], "harness_rc": rc, "env": env or {}}
+        key, found = "%s:f2h:%s" % (prop_key_prefix, name), False
+        if bad:
+            d = first_f2h_diff(binary, api, canon, bad[0], env=env)
+            if d:
+                u, x, y = d
+                sp = halfspec.spec_f2h(u)
+                rep.update({"float_bits": "0x%08x" % u, "implementation": "0x%04x" % x, "model": "0x%04x" % y,
+                            "spec_rne16": "0x%04x" % (halfspec.canon16(sp) if canon else sp),
+                            "replay_cmd": "%s%s f2h_range %d %d %s %s" % (
+                                "".join("%s=%s " % kv for kv in (env or {}).items()),
+                                os.path.relpath(binary, lib.VERIF), u, u + 1, api, c)})
+                key, found = "%s:f2h:%s:0x%08x" % (prop_key_prefix, name, u), True
+        chk.fail("corr:%s:f2h:%s" % (name, api), key,
+                 "float->half differs from the proven model in configuration %s (%s api)%s" % (name, api, what), rep, found)
+    return nbad
+
+
+def compare_h2f(chk, name, binary, prop_key_prefix, model_h2f, apis=("c", "cxx"), canon=False, env=None, what=""):
+    """half->float on all 2^16 patterns against the model list. Returns #failing apis."""
+    c = "1" if canon else "0"
+    nbad = 0
+    for api in apis:
+        if api == "asg":
+            continue
+        rc, out = lib.sh([binary, "h2f_all", api, c], timeout=600, env=env)
+        try:
+            impl = [int(x, 16) for x in out.split()]
+        except ValueError:
+            impl = []
+        ok = rc == 0 and len(impl) == 65536 and impl == model_h2f
+        chk.oblige("corr:%s:h2f:%s:all-2^16" % (name, api), "correspondence", ok)
+        chk.count(1 << 16, (1 << 16) - 2)
+        if ok:
+            continue
+        nbad += 1
+        d = [h for h in range(min(len(impl), len(model_h2f), 65536)) if impl[h] != model_h2f[h]]
+        rep = {"config": name, "api": api, "nan_canonicalised": bool(canon), "mismatches": len(d),
+               "harness_rc": rc, "harness_lines": len(impl), "env": env or {}}
+        key = "%s:h2f:%s" % (prop_key_prefix, name)
+        if d:
+            h = d[0]
+            sp = halfspec.spec_h2f(h)
+            rep.update({"half_bits": "0x%04x" % h, "implementation": "0x%08x" % impl[h], "model": "0x%08x" % model_h2f[h],
+                        "spec_exact": "0x%08x" % (halfspec.canon32(sp) if canon else sp),
+                        "replay_cmd": "%s%s h2f %x" % ("".join("%s=%s " % kv for kv in (env or {}).items()),
+                                                      os.path.relpath(binary, lib.VERIF), h)})
+            key += ":0x%04x" % h
+        chk.fail("corr:%s:h2f:%s" % (name, api), key,
+                 "half->float differs from the proven model in configuration %s (%s api)%s" % (name, api, what), rep, bool(d))
+    return nbad
+
+
+def rounding_control(binary):
+    """{mode: parsed rm_control line} — evidence that HALF_CORR_ROUND takes effect in this binary."""
+    res = {}
+    for m in ("ne",) + tuple(ROUND_MODES):
+        rc, out = lib.sh([binary, "rm_control"], timeout=60, env={"HALF_CORR_ROUND": m})
+        res[m] = dict(kv.split("=", 1) for kv in out.split() if "=" in kv) if rc == 0 else {"rc": str(rc)}
+    return res
+
+
+def rounding_control_ok(ctl, f16c):
+    """the control conversions follow the mode: 1+2^-24 rounds up only under FE_UPWARD, -(1+2^-24)
+    down only under FE_DOWNWARD; with F16C hardware vcvtps2ph(CUR_DIRECTION) of +-(1+2^-11+2^-23)
+    gives 3c01/bc01 under to-nearest and the directed results otherwise"""
+    try:
+        ok = (ctl["ne"]["add"], ctl["ne"]["sub"]) == ("3f800000", "bf800000") and \
+             (ctl["tz"]["add"], ctl["tz"]["sub"]) == ("3f800000", "bf800000") and \
+             (ctl["up"]["add"], ctl["up"]["sub"]) == ("3f800001", "bf800000") and \
+             (ctl["dn"]["add"], ctl["dn"]["sub"]) == ("3f800000", "bf800001")
+        if f16c:
+            ok = ok and ctl["ne"]["f16c_cur"] == "3c01,bc01" and ctl["tz"]["f16c_cur"] == "3c00,bc00" and \
+                 ctl["up"]["f16c_cur"] == "3c01,bc00" and ctl["dn"]["f16c_cur"] == "3c00,bc01"
+        return ok
+    except KeyError:
+        return False
+
+
+def rounding_sweep(chk, name, binary, prop_key_prefix, model_blocks, model_h2f, apis, canon, seed, exhaustive, f16c=False,
+                   stride=97):
+    """Run the configuration under FE_TOWARDZERO / FE_UPWARD / FE_DOWNWARD (fesetround in the harness
+    before any conversion): both directions, every api; the results must still equal the
+    to-nearest model (the conversions are specified as RNE regardless of the caller's mode).
+    float->half: all 2^32 when `exhaustive`, else all boundary blocks + every `stride`-th block.
+    Returns per-mode mismatch counts."""
+    ctl = rounding_control(binary)
+    okc = rounding_control_ok(ctl, f16c)
+    chk.oblige("rounding-control:%s fesetround() is in effect inside the harness%s" % (
+        name, " and vcvtps2ph(CUR_DIRECTION) follows it" if f16c else ""), "translator-validation", okc, ctl)
+    if not okc:
+        chk.fail("rounding-control:" + name, "%s:rounding-control:%s" % (prop_key_prefix, name),
+                 "the rounding-mode positive control did not behave as expected; the rounding-mode sweep proves nothing",
+                 {"control": ctl}, False)
+    res = {}
+    blocks = list(range(65536)) if exhaustive else sample_blocks(seed, stride)
+    for m, fe in ROUND_MODES.items():
+        env = {"HALF_CORR_ROUND": m}
+        what = " under %s" % fe
+        nm = "%s@%s" % (name, fe)
+        nb = compare_blocks(chk, nm, binary, prop_key_prefix, blocks, model_blocks, apis=apis, canon=canon, env=env, what=what)
+        nb += compare_h2f(chk, nm, binary, prop_key_prefix, model_h2f, apis=apis, canon=canon, env=env, what=what)
+        res[fe] = {"f2h_blocks": len(blocks), "mismatches": nb}
+    return res
+
+
+# ---- FP-exceptions build --------------------------------------------------
+
+def model_f2hx(blocks=None):
+    """hashes of (result | raised<<16) of the model f2hExc: all 65,536 blocks, or a list"""
+    if blocks is None:
+        rc, out = lib.sh([DRV, "f2hx_blocks", "0", "65536"], timeout=1800)
+    else:
+        rc, out = lib.sh([DRV, "f2hx_list"] + [str(b) for b in blocks], timeout=1800)
+    return out.split()
+
+
+def compare_fpexc(chk, name, binary, prop_key_prefix, blocks, apis=("c", "cxx", "asg")):
+    """IMATH_HALF_ENABLE_FP_EXCEPTIONS build: result AND the exception flags left behind by every
+    call (fetestexcept) against the model f2hExc, whose flag sets are characterised by the
+    theorems f2hExc_overflow / f2hExc_underflow.  blocks=None: all 2^32."""
+    want = model_f2hx(blocks)
+    n = 65536 if blocks is None else len(blocks)
+    lab = "all-2^32" if blocks is None else "%d-blocks" % n
+    nbad = 0
+    for api in apis:
+        if blocks is None:
+            rc, out = lib.sh([binary, "f2hx_blocks", "0", "65536", api], timeout=3600)
+        else:
+            rc, out = lib.sh([binary, "f2hx_list", api] + [str(b) for b in blocks], timeout=3600)
+        impl = out.split()
+        ok = rc == 0 and len(impl) == n and len(want) == n and impl == want
+        chk.oblige("corr:%s:f2h+fe-flags:%s:%s" % (name, api, lab), "correspondence", ok)
+        chk.count(n << 16, (n << 16) - 2)
+        if ok:
+            continue
+        bl = list(range(65536)) if blocks is None else blocks
+        bad = [bl[i] for i in range(n) if impl[i] != want[i]] if len(impl) == n and len(want) == n else []
+        nbad += len(bad) or 1
+        rep = {"config": name, "api": api, "mismatching_blocks": len(bad), "first_blocks": bad[:8], "harness_rc": rc}
+        key, found = "%s:f2hx:%s" % (prop_key_prefix, name), False
+        if bad:
+            lo, hi = bad[0] << 16, (bad[0] + 1) << 16
+            rc1, a = lib.sh([binary, "f2hx_range", str(lo), str(hi), api], timeout=600)
+            rc2, b = lib.sh([DRV, "f2hx_range", str(lo), str(hi)], timeout=600)
+            a, b = a.split(), b.split()
+            for i, (x, y) in enumerate(zip(a, b)):
+                if x != y:
+                    u = lo + i
+                    x, y = int(x, 16), int(y, 16)
+                    fl = {0: "none", 1: "FE_OVERFLOW", 2: "FE_UNDERFLOW"}
+                    rep.update({"float_bits": "0x%08x" % u, "implementation_bits": "0x%04x" % (x & 0xffff),
+                                "implementation_raised": fl.get(x >> 16, "code %d (4 = another flag)" % (x >> 16)),
+                                "model_bits": "0x%04x" % (y & 0xffff), "model_raised": fl.get(y >> 16, str(y >> 16)),
+                                "spec_rne16": "0x%04x" % halfspec.spec_f2h(u),
+                                "replay_cmd": "%s f2hx_range %d %d %s" % (os.path.relpath(binary, lib.VERIF), u, u + 1, api)})
+                    key, found = "%s:f2hx:%s:0x%08x" % (prop_key_prefix, name, u), True
+                    break
+        chk.fail("corr:%s:f2h+fe-flags:%s" % (name, api), key,
+                 "float->half result or raised FP exception differs from the model f2hExc in configuration %s (%s api)" % (name, api),
+                 rep, found)
+    return nbad
+
+
+# ---- independent spec vs model --------------------------------------------
+
+def spec_blocks_hashes(blocks):
+    """FNV hashes (as Driver/Half.lean blockHash) of the independently written Python spec
+    halfspec.spec_f2h (exact integers, bisection over the ordered list of binary16 values) over
+    each listed block; pure Python, ~0.1 s per block per core."""
+    from concurrent.futures import ProcessPoolExecutor
+    with ProcessPoolExecutor(max_workers=min(lib.NCPU, 16)) as ex:
+        return list(ex.map(_spec_block_hash, blocks, chunksize=max(1, len(blocks) // 64)))
+
+
+def _spec_block_hash(b):
+    lo = b << 16
+    h = 1469598103934665603
+    f = halfspec.spec_f2h
+    for u in range(lo, lo + 65536):
+        h = ((h ^ f(u)) * 1099511628211) & 0xffffffffffffffff
+    return "%x" % h
+
+
+def compare_spec_model(chk, prop_key_prefix, model_blocks, model_h2f, blocks):
+    """Standing obligation spec-vs-model: the Python spec against the Lean MODEL on the listed
+    blocks (float->half) and on all 2^16 halves (half->float), so that a slip in the Lean
+    denotations hval/fval (in which the theorems are stated) cannot hide behind the model."""
+    sp = spec_blocks_hashes(blocks)
+    want = [model_blocks[b] for b in blocks] if len(model_blocks) == 65536 else []
+    ok = sp == want
+    chk.oblige("spec-vs-model:f2h halfspec.py = Lean model f2h:%d-blocks" % len(blocks), "correspondence", ok)
+    chk.count(len(blocks) << 16, (len(blocks) << 16) - 2)
+    if not ok:
+        bad = [blocks[i] for i in range(len(blocks)) if i >= len(want) or sp[i] != want[i]]
+        rep = {"mismatching_blocks": len(bad), "first_blocks": bad[:8]}
+        key, found = prop_key_prefix + ":spec-vs-model:f2h", False
+        if bad and want:
+            lo, hi = bad[0] << 16, (bad[0] + 1) << 16
+            rc, b = lib.sh([DRV, "f2h_range", str(lo), str(hi), "0"], timeout=600)
+            for i, y in enumerate(b.split()):
+                if int(y, 16) != halfspec.spec_f2h(lo + i):
+                    rep.update({"float_bits": "0x%08x" % (lo + i), "model": "0x%04x" % int(y, 16),
+                                "spec_rne16": "0x%04x" % halfspec.spec_f2h(lo + i)})
+                    key, found = key + ":0x%08x" % (lo + i), True
+                    break
+        chk.fail("spec-vs-model:f2h", key, "the Lean model f2h differs from the independent executable specification", rep, found)
+    sph = [halfspec.spec_h2f(h) for h in range(65536)]
+    okh = sph == model_h2f
+    chk.oblige("spec-vs-model:h2f halfspec.py = Lean model h2f:all-2^16", "correspondence", okh)
+    chk.count(65536, 65534)
+    if not okh:
+        d = [h for h in range(min(65536, len(model_h2f))) if sph[h] != model_h2f[h]]
+        chk.fail("spec-vs-model:h2f", prop_key_prefix + ":spec-vs-model:h2f" + (":0x%04x" % d[0] if d else ""),
+                 "the Lean model h2f differs from the independent executable specification",
+                 {"half_bits": "0x%04x" % d[0], "model": "0x%08x" % model_h2f[d[0]], "spec_exact": "0x%08x" % sph[d[0]]} if d else {},
+                 bool(d))
+    return ok and okh
+
+
+# ---- theorem statements pinned --------------------------------------------
+
+def theorem_statements(path):
+    """{name: sha256 of the whitespace-normalised statement (text from `theorem name` to `:=`)}"""
+    import hashlib, re
+    src = lib.strip_lean_comments(open(path).read())
+    res = {}
+    for m in re.finditer(r"^\s*theorem\s+(\S+)(.*?):=", src, re.S | re.M):
+        res[m.group(1)] = hashlib.sha256(re.sub(r"\s+", " ", m.group(2)).strip().encode()).hexdigest()[:16]
+    return res
+
+
+def check_statement_pins(chk, path, pinfile, prop_key_prefix):
+    """Names in `required=` protect against deletion, not against weakening (an added hypothesis).
+    The statement text of every theorem is pinned in tools/pins/<pinfile>; a changed statement is
+    reported until it is re-pinned deliberately (`python3 tools/halfcorr.py pin`)."""
+    import json
+    pp = os.path.join(lib.VERIF, "tools", "pins", pinfile)
+    cur = theorem_statements(path)
+    try:
+        pins = json.load(open(pp))
+    except (OSError, ValueError):
+        pins = {}
+    changed = sorted(n for n in pins if n in cur and cur[n] != pins[n])
+    gone = sorted(n for n in pins if n not in cur)
+    unpinned = sorted(n for n in cur if n not in pins)
+    ok = not changed and not gone and bool(pins)
+    chk.oblige("statements-pinned:%s (%d theorems)" % (os.path.basename(path), len(pins)), "audit", ok,
+               {"changed": changed, "missing": gone, "unpinned": unpinned} if (changed or gone or unpinned) else None)
+    if not ok:
+        chk.fail("statements-pinned:" + os.path.basename(path), "%s:statement-changed:%s" % (prop_key_prefix, (changed + gone + ["no-pins"])[0]),
+                 "theorem statement(s) differ from the pinned text (weakened/edited?) — re-pin deliberately if intended",
+                 {"changed": changed, "missing": gone}, False)
+    return ok
 
 
 def compare_config(chk, name, binary, prop_key_prefix, apis=("c", "cxx"), canon=False, model_blocks=None, model_h2f=None):
@@ -84,6 +386,8 @@ def compare_config(chk, name, binary, prop_key_prefix, apis=("c", "cxx"), canon=
                     found = True
             chk.fail("corr:%s:f2h:%s" % (name, api), key,
                      "float->half differs from the proven model in configuration %s (%s api)%s" % (name, api, tag), rep, found)
+        if api == "asg":      # half::operator=(float): float->half only
+            continue
         rc, out = lib.sh([binary, "h2f_all", api, c], timeout=600)
         impl = [int(x, 16) for x in out.split()]
         ok = rc == 0 and len(impl) == 65536 and impl == model_h2f
@@ -105,3 +409,13 @@ def compare_config(chk, name, binary, prop_key_prefix, apis=("c", "cxx"), canon=
             chk.fail("corr:%s:h2f:%s" % (name, api), key,
                      "half->float differs from the proven model in configuration %s (%s api)%s" % (name, api, tag), rep, bool(d))
     return nbad
+
+
+if __name__ == "__main__":
+    import json
+    if sys.argv[1:2] == ["pin"]:
+        for mod, pf in (("C01", "statements_c01.json"), ("C02", "statements_c02.json")):
+            st = theorem_statements(os.path.join(lib.LEAN, "ImathVerif", "Props", mod + ".lean"))
+            with open(os.path.join(lib.VERIF, "tools", "pins", pf), "w") as f:
+                json.dump(st, f, indent=1, sort_keys=True)
+            print(mod, len(st), "statements pinned")
